@@ -13,6 +13,7 @@ import (
 	"github.com/gogpu/naga/msl"
 	"fmt"
 	"math"
+	"math/big"
 	"os"
 	"sort"
 	"strings"
@@ -132,6 +133,111 @@ func ovLiteral(t *wty, v float64) (*wexpr, bool) {
 	}
 }
 
+// intOverflows: does any integer sub-expression of e, evaluated exactly (unbounded integers, operands wrapped to
+// their 32-bit type as WGSL does), leave the range of its type?  This is the decidable shape of the recorded defect
+// "resolution folds integer expressions in float64 and converts the result": a case without such an overflow is
+// computed exactly by a float64 evaluator and must agree.  env holds the values of the overrides / constants by name.
+func intOverflows(e *wexpr, env map[string]*big.Int) bool {
+	_, ovf := intEval(e, env)
+	return ovf
+}
+
+// intEval: the wrapped value of an integer expression (nil outside the evaluated fragment) and the overflow flag.
+func intEval(e *wexpr, env map[string]*big.Int) (*big.Int, bool) {
+	ovf := false
+	var ev func(e *wexpr) *big.Int
+	wrap := func(t *wty, v *big.Int) *big.Int {
+		m := new(big.Int).And(v, big.NewInt(0xffffffff)) // two's complement low word (big.Int And on negatives is two's complement)
+		if t.k == "i32" && m.Cmp(big.NewInt(0x7fffffff)) > 0 {
+			m.Sub(m, big.NewInt(1<<32))
+		}
+		return m
+	}
+	inRange := func(t *wty, v *big.Int) bool {
+		if t.k == "i32" {
+			return v.Cmp(big.NewInt(-1<<31)) >= 0 && v.Cmp(big.NewInt(1<<31-1)) <= 0
+		}
+		return v.Sign() >= 0 && v.Cmp(big.NewInt(1<<32-1)) <= 0
+	}
+	ev = func(e *wexpr) *big.Int {
+		if e == nil {
+			return nil
+		}
+		var args []*big.Int
+		for _, a := range e.args {
+			args = append(args, ev(a)) // visit every sub-expression, whatever the node
+		}
+		if e.ty == nil || !e.ty.isInt() {
+			return nil
+		}
+		switch e.k {
+		case "lit":
+			if e.ty.k == "i32" {
+				return big.NewInt(int64(int32(e.bits)))
+			}
+			return big.NewInt(int64(e.bits))
+		case "var":
+			if v, ok := env[e.name]; ok {
+				return v
+			}
+			return nil
+		case "un":
+			if args[0] == nil {
+				return nil
+			}
+			switch e.op {
+			case "-":
+				r := new(big.Int).Neg(args[0])
+				if !inRange(e.ty, r) {
+					ovf = true
+				}
+				return wrap(e.ty, r)
+			case "~":
+				return wrap(e.ty, new(big.Int).Not(args[0]))
+			}
+			return nil
+		case "bin":
+			if len(args) != 2 || args[0] == nil || args[1] == nil {
+				return nil
+			}
+			var r *big.Int
+			switch e.op {
+			case "+":
+				r = new(big.Int).Add(args[0], args[1])
+			case "-":
+				r = new(big.Int).Sub(args[0], args[1])
+			case "*":
+				r = new(big.Int).Mul(args[0], args[1])
+			case "/":
+				if args[1].Sign() == 0 {
+					return nil
+				}
+				r = new(big.Int).Quo(args[0], args[1])
+			case "%":
+				if args[1].Sign() == 0 {
+					return nil
+				}
+				r = new(big.Int).Rem(args[0], args[1])
+			case "&":
+				r = new(big.Int).And(args[0], args[1])
+			case "|":
+				r = new(big.Int).Or(args[0], args[1])
+			case "^":
+				r = new(big.Int).Xor(args[0], args[1])
+			default:
+				return nil
+			}
+			if !inRange(e.ty, r) {
+				ovf = true
+			}
+			return wrap(e.ty, r)
+		}
+		return nil
+	}
+	v := ev(e)
+	return v, ovf
+}
+
 // K-tie of the operator tables of Naga.Model.Override with the exported ir.EvalBinaryFloat /
 // ir.EvalUnaryFloat on integer operands inside the exact range.
 func c14Ops(c *ctx) {
@@ -231,13 +337,17 @@ func cmdC14(c *ctx) {
 		consts := ir.PipelineConstants{}
 		expectErr := ""
 		var mapS []string
+		// clean class: one module in three spells the i32 literals of its initialisers as abstract ints (small values, + - * only)
+		bare := knob == "clean" && c.chance(0.33)
 		for _, o := range ovs {
 			if o.id >= 0 {
 				fmt.Fprintf(&decls, "@id(%d) ", o.id)
 			}
 			fmt.Fprintf(&decls, "override %s: %s", o.name, o.ty)
 			if o.init != nil {
+				wBareInts = bare
 				decls.WriteString(" = " + o.init.wgsl())
+				wBareInts = false
 			}
 			decls.WriteString(";\n")
 			var e *wexpr
@@ -344,13 +454,48 @@ func cmdC14(c *ctx) {
 			}
 		}
 		ref.entry = &wfunc{name: "main", body: body}
+		// shape of the float64-folding defect: an integer expression over the (substituted) overrides overflows 32 bits
+		ovf := false
+		{
+			env := map[string]*big.Int{}
+			for _, k := range ref.consts {
+				if intOverflows(k.e, env) {
+					ovf = true
+				}
+				if k.ty.isInt() {
+					// value of the constant: exact evaluation wrapped to the type (nil when outside the evaluated fragment)
+					if val, _ := intEval(k.e, env); val != nil {
+						env[k.name] = val
+					}
+				}
+			}
+			var walk func(l []*wstmt)
+			walk = func(l []*wstmt) {
+				for _, st := range l {
+					if st.e != nil && intOverflows(st.e, env) {
+						ovf = true
+					}
+					walk(st.body)
+					walk(st.els)
+				}
+			}
+			walk(body)
+			for _, f := range ref.funcs {
+				walk(f.body)
+			}
+		}
+		ovfTag := ""
+		if ovf {
+			ovfTag = " ovf"
+			c.count("shape:int-overflow")
+		}
 		src := "@group(0) @binding(0) var<storage, read> inp: array<u32>;\n@group(0) @binding(1) var<storage, read_write> outp: array<u32>;\n" +
 			decls.String() + helperSrc + ref.entry.wgsl(true, 1)
 		c.count("knob:" + knob)
 		emit := func(kase, impl string) {
 			c.line("cases.txt", kase)
 			c.line("impl.txt", impl)
-			c.line("tags.txt", fmt.Sprintf("%s hslot=%d %s", knob, hslot, strings.Join(mapS, ",")))
+			c.line("tags.txt", fmt.Sprintf("%s hslot=%d%s %s", knob, hslot, ovfTag, strings.Join(mapS, ",")))
 			c.line("src.txt", q(src))
 		}
 		mod, res := frontEnd(src)
@@ -409,7 +554,7 @@ func cmdC14(c *ctx) {
 						return err
 					})
 				}
-				tag := fmt.Sprintf("route:%s %s hslot=%d %s", route, knob, hslot, strings.Join(mapS, ","))
+				tag := fmt.Sprintf("route:%s %s hslot=%d%s %s", route, knob, hslot, ovfTag, strings.Join(mapS, ","))
 				routeLine := func(kase string) {
 					c.line("route-cases.txt", kase)
 					c.line("route-tags.txt", tag)
